@@ -82,6 +82,38 @@ def record(n, deps, steps, spell):
     return events
 
 
+def record_phases(n, deps_by_phase, steps, spell):
+    """One real controller serving several phases that use the SAME statement ids with different edges (ids are unique
+    within a phase only).  steps = [(phase name, step script)].  Returns one event list per step."""
+    from dagrt.language import Assign, DAGCode, ExecutionController, ExecutionPhase
+    idx = {spell(i): i for i in range(1, n + 1)}
+    ids = {i: s for s, i in idx.items()}
+    phases = {}
+    for name, deps in deps_by_phase.items():
+        stmts = [Assign(id=ids[i], assignee="x%d" % i, assignee_subscript=(), expression=i,
+                        depends_on=[ids[d] for d in deps[i - 1]]) for i in range(1, n + 1)]
+        phases[name] = ExecutionPhase(name=name, next_phase=name, statements=frozenset(stmts))
+    code = DAGCode(phases=phases, initial_phase=sorted(phases)[0])
+    ctrl = ExecutionController(code)
+    out = []
+    for name, st in steps:
+        phase = phases[name]
+        events = []
+        ctrl.reset()
+        ctrl.update_plan(phase, phase.depends_on)
+        events.append({"ev": "begin", "plan": [idx[p] for p in ctrl.plan]})
+        rec = Recorder(ctrl, idx, st["guards"], st["reqs"], st["cut"], events)
+        try:
+            for _ in ctrl(phase, rec):
+                pass
+            rec._finish(list(ctrl.plan))
+            events.append({"ev": "end"})
+        except Cut:
+            rec._finish(list(ctrl.plan))
+        out.append((name, events))
+    return out
+
+
 def graphs(n):
     """All dependency maps with deps[i] subset of 1..i-1 (every DAG up to isomorphism)."""
     per = []
@@ -187,6 +219,23 @@ def run(chk):
             cases.append({"n": n, "deps": deps, "events": events,
                           "steps": [{"guards": s["guards"], "reqs": sorted(s["reqs"].items()), "cut": s["cut"]}
                                     for s in steps]})
+    # one controller, several phases over the same ids (every pair of graphs on 3 statements, both orders of use)
+    rng = random.Random(chk.seed + 1)
+    g3 = list(graphs(3))
+    pairs = [(a, b) for a in g3 for b in g3 if a != b]
+    g4 = list(graphs(4))
+    pairs4 = [(rng.choice(g4), rng.choice(g4)) for _ in range(60 if chk.quick else 1500)]
+    for a, b in pairs + pairs4:
+        n = len(a)
+        plain = {"guards": [True] * n, "reqs": {}, "cut": 0}
+        withreq = {"guards": [rng.random() < 0.8 for _ in range(n)], "reqs": {rng.randint(1, n): [rng.randint(1, n)]}, "cut": 0}
+        script = [("p", plain), ("q", plain), ("p", withreq), ("q", withreq)]
+        for k, (name, events) in enumerate(record_phases(n, {"p": a, "q": b}, script, SPELLINGS[0])):
+            deps = a if name == "p" else b
+            cases.append({"n": n, "deps": deps, "events": events, "steps": [],
+                          "shared": {"p": a, "q": b, "step": k,
+                                     "script": [[nm, {"guards": st["guards"], "reqs": sorted(st["reqs"].items()), "cut": st["cut"]}]
+                                                for nm, st in script]}})
     seen = set()
     uniq = []
     for c in cases:
@@ -209,7 +258,7 @@ def run(chk):
         chk.violation(signature(c, pos, clause),
                       "real ExecutionController: visit #%d of trace violates %s (graph deps=%s, script=%s)"
                       % (pos, clause, c["deps"], c["steps"]),
-                      {"n": c["n"], "deps": c["deps"], "steps": c["steps"], "events": c["events"]})
+                      {"n": c["n"], "deps": c["deps"], "steps": c["steps"], "events": c["events"], "shared": c.get("shared")})
     with_req = sum(1 for c in uniq if any(e["ev"] == "pop" and e["req"] for e in c["events"]))
     with_cut = sum(1 for c in uniq if any(e["ev"] == "pop" and e["cut"] for e in c["events"]))
     chk.coverage.update({
@@ -235,7 +284,7 @@ def run(chk):
                             "the size bound with every single-request script",
         "samples": sample([{"deps": c["deps"], "steps": c["steps"],
                             "visits": [e.get("s") for e in c["events"] if e["ev"] == "pop"]}
-                           for c in uniq if c["steps"][0]["reqs"]], 5),
+                           for c in uniq if c["steps"] and c["steps"][0]["reqs"]], 5),
     })
     chk.assumptions += ["set iteration orders of the real process are sampled through id spellings; "
                         "all orders are covered in the as-coded model only",
@@ -245,6 +294,18 @@ def run(chk):
 
 def replay(chk, rep):
     c = rep["case"]
+    if c.get("shared"):
+        sh = c["shared"]
+        script = [(nm, {"guards": st["guards"], "reqs": {int(k): v for k, v in st["reqs"]}, "cut": st["cut"]}) for nm, st in sh["script"]]
+        name, events = record_phases(c["n"], {"p": sh["p"], "q": sh["q"]}, script, SPELLINGS[0])[sh["step"]]
+        case = {"n": c["n"], "deps": c["deps"], "events": events, "steps": []}
+        bad, acc, drift = validate(chk, [case])
+        print("shared controller, step %d (phase %s): visits %s -> %s" % (sh["step"], name, [e.get("s") for e in events if e["ev"] == "pop"],
+                                                                         bad.get(0, "accepted")))
+        if bad:
+            chk.violation(rep["signature"], "replayed: %s at visit %d" % (bad[0][1], bad[0][0]), c)
+        chk.coverage.update({"evaluations": 1, "distinct_nontrivial": 1, "samples": [c["deps"]]})
+        return
     steps = [{"guards": s["guards"], "reqs": {int(k): v for k, v in s["reqs"]}, "cut": s["cut"]}
              for s in c["steps"]]
     found = False
